@@ -13,11 +13,36 @@ SLICES_QUICK = [("core", 3, 3, 3), ("ws", 4, 2, 3), ("builtin", 2, 3, 3), ("rest
 SLICES_THOROUGH = [("core", 8, 4, 4), ("ws", 8, 3, 3), ("builtin", 6, 4, 3), ("stack", 6, 3, 4), ("counted", 4, 3, 4), ("factor", 4, 1, 4), ("restore", 8, 1, 5)]
 
 
+def _long_token_cases(path):
+    """Grammars whose failure reports carry LONG tokens - literals and stack contents of 24..48 bytes made of one-,
+    two-, three- and four-byte characters in every alignment - so that whatever the help message does with a token
+    (quoting, shortening) meets multi-byte characters at every byte offset."""
+    n = 0
+    with open(path, "w") as f:
+        for ch in ("\u00c0", "\u7d42", "\U0001f600", "a"):
+            for lead in range(0, 4):
+                for count in (8, 11, 12, 16, 17, 24):
+                    lit = "x" * lead + ch * count
+                    if not (24 <= len(lit.encode()) <= 100):
+                        continue
+                    esc = lit
+                    text = 'r = { "q" ~ "%s" ~ EOI }\ns = { "q" ~ !"%s" ~ ANY }\nd = { ("%s")+ }\np = { PUSH(d) ~ " " ~ POP ~ EOI }\n' % (esc, esc, ch)
+                    inputs = ["q", "q" + lit[:-1], "q" + lit, "q" + lit + "z", "qz", lit + " " + lit[:-1] + "z", ch * count + " " + ch * (count - 1), ch * count + " "]
+                    cases = []
+                    for start in ("r", "s", "p"):
+                        for i in inputs:
+                            cases.append({"start": start, "inp": [ord(c) for c in i], "exp": {"k": "unknown"}})
+                    f.write(json.dumps({"text": text, "cases": cases}) + "\n")
+                    n += 1
+    return n
+
+
 def run(ctx):
     quick = ctx.tier == "quick"
     vh = cargo_build()
     ctx.cov["rule"] = ("pairs of runs (detail off / on) of the real VM on: all members of MC_PegGen slices x all inputs up to the slice's "
-                       "bound, plus seeded random grammars (all operators, stack, WHITESPACE/COMMENT, multi-byte inputs). A pair is "
+                       "bound, seeded random grammars (all operators, stack, WHITESPACE/COMMENT, multi-byte inputs), and grammars whose reports carry "
+                       "24..100-byte tokens of multi-byte characters in every alignment (literals and stack contents). A pair is "
                        "non-trivial if the parse fails (attempt information is produced); distinct = distinct (grammar, start, input).")
     batches = []
     tot = {"cases": 0, "failing_parses": 0, "dropped": 0}
@@ -32,6 +57,14 @@ def run(ctx):
         for k in tot:
             tot[k] += s[k]
         batches.append(out)
+    cases = os.path.join(ctx.work, "long_tokens.ndjson")
+    _long_token_cases(cases)
+    out = os.path.join(ctx.work, "d_long.ndjson")
+    s = run_json([vh, "c15-emit", "--cases", cases, "--out", out], timeout=6000)
+    os.remove(cases)
+    for k in tot:
+        tot[k] += s[k]
+    batches.append(out)
     for i in range(6 if quick else 36):
         out = os.path.join(ctx.work, "d_rand_%d.ndjson" % i)
         s = run_json([vh, "c15-emit", "--seed", str(ctx.seed * 100 + i), "--grammars", "200" if quick else "500", "--out", out], timeout=6000)
